@@ -377,7 +377,7 @@ def _index_bound_is_length(ctx, rep, tier):
         if not p.end or p.end[0] != "return" or not isinstance(p.end[1], SStr):
             continue
         v = p.valuation()
-        if v.get("F:UNSAFE_STRING_INDEXING") is not False or v.get("intexpr.ref.type == OutputStorageType.STR") is not True:
+        if v.get("F:UNSAFE_STRING_INDEXING") is not False or v.get("intexpr.ref.type == OutputStorageType.RAW") is True or v.get("intexpr.ref.type == OutputStorageType.STR") is False:
             continue        # raw outputs keep their sizeof bound; a reference that is neither str nor raw cannot be constructed (StringRefIntegerExpr.__init__)
         txt = p.end[1].text()
         n += 1
